@@ -69,14 +69,14 @@ def module(prop):
 def worker_main(prop, tier, seedfile, outfile, deadline_s):
     faulthandler.enable()
     mod = module(prop)
-    seeds = json.load(open(seedfile))
+    seeds = json.load(open(seedfile, encoding='utf-8'))
     t0 = time.time()
     n = 0
-    with open(outfile, 'w') as out:
+    with open(outfile, 'w', encoding='utf-8') as out:
         for s in seeds:
             if time.time() - t0 > deadline_s:
                 break
-            faulthandler.dump_traceback_later(max(120, deadline_s), exit=True)
+            faulthandler.dump_traceback_later(max(900, deadline_s * 4), exit=True)
             r = mod.run_one(s, tier)
             faulthandler.cancel_dump_traceback_later()
             n += 1
@@ -95,7 +95,7 @@ def load_known():
     p = os.path.join(VERIF, 'known_findings.json')
     if not os.path.exists(p):
         return []
-    return json.load(open(p)).get('findings', [])
+    return json.load(open(p, encoding='utf-8')).get('findings', [])
 
 
 def match_known(prop, v, known):
@@ -156,10 +156,15 @@ def run_check(prop, tier):
     for (c, j), ss in sorted(buckets.items()):
         sf = os.path.join(tmp, 'seeds-%d-%d.json' % (c, j))
         of = os.path.join(tmp, 'out-%d-%d.jsonl' % (c, j))
-        json.dump(ss, open(sf, 'w'))
+        json.dump(ss, open(sf, 'w', encoding='utf-8'))
         env = dict(os.environ)
         env['PYTHONHASHSEED'] = HASH_CLASSES[c]
         env['PYTHONDONTWRITEBYTECODE'] = '1'
+        if c == len(HASH_CLASSES) - 1:
+            # process-level configuration is part of the environment the simulator owns:
+            # one worker class runs with a non-UTF-8 default text encoding (legacy locale)
+            env.update({'LC_ALL': 'C', 'LANG': 'C', 'PYTHONUTF8': '0',
+                        'PYTHONCOERCECLOCALE': '0'})
         p = subprocess.Popen([PY, os.path.abspath(__file__), '--worker', prop, tier, sf, of,
                               str(cap)], env=env, stdout=subprocess.PIPE,
                              stderr=subprocess.STDOUT, text=True)
@@ -168,7 +173,7 @@ def run_check(prop, tier):
     harness_errors = []
     for p, of, ss in procs:
         try:
-            outtxt, _ = p.communicate(timeout=cap + 240)
+            outtxt, _ = p.communicate(timeout=cap + 1200)
         except subprocess.TimeoutExpired:
             p.kill()
             outtxt, _ = p.communicate()
@@ -176,7 +181,7 @@ def run_check(prop, tier):
         if p.returncode != 0:
             harness_errors.append('worker exit %s: %s' % (p.returncode, outtxt[-3000:]))
         if os.path.exists(of):
-            for line in open(of):
+            for line in open(of, encoding='utf-8'):
                 line = line.strip()
                 if line:
                     results.append(json.loads(line))
@@ -260,7 +265,7 @@ def finish(prop, tier, mod, base_seed, results, wall, harness_errors, planned, t
         'violations': len(unknown),
     }
     os.makedirs(os.path.join(OUT, 'evidence'), exist_ok=True)
-    with open(os.path.join(OUT, 'evidence', prop + '.json'), 'w') as f:
+    with open(os.path.join(OUT, 'evidence', prop + '.json'), 'w', encoding='utf-8') as f:
         json.dump(ev, f, indent=1, ensure_ascii=False, default=str)
     # report -----------------------------------------------------------------------------
     listed = [k for k in known if k['property'] == prop or k['id'] in known_hits]
@@ -320,13 +325,13 @@ def write_replay(prop, mod, r):
         except Exception as e:          # minimisation is best effort
             obj['minimise_error'] = repr(e)
     path = os.path.join(OUT, 'replays', '%s-%d.json' % (prop, r['seed']))
-    with open(path, 'w') as f:
+    with open(path, 'w', encoding='utf-8') as f:
         json.dump(obj, f, indent=1, ensure_ascii=False, default=str)
     return path
 
 
 def run_replay(prop, path):
-    obj = json.load(open(path))
+    obj = json.load(open(path, encoding='utf-8'))
     want = obj.get('hashseed')
     if want is not None and os.environ.get('PYTHONHASHSEED') != str(want):
         env = dict(os.environ)
